@@ -12,3 +12,12 @@ Definition ROBE_BUF : N := 522.
 Definition ROBE_HEADER : N := 5.
 Definition OPC_HEADER_SIZE : N := 4.
 Definition OPC_FRAME_SIZE : N := 516.
+Definition ACN_PDU_BLOCK_SIZE : N := 4.
+Definition ACN_TWO_BYTES : N := 2.
+Definition ACN_THREE_BYTES : N := 3.
+Definition ACN_LFLAG_MASK : N := 128.
+Definition ACN_LENGTH_MASK : N := 15.
+From Coq Require Import List.
+Definition ACN_HEADER : list N := (cons 65 (cons 83 (cons 67 (cons 45 (cons 69 (cons 49 (cons 46 (cons 49 (cons 55 (cons 0 (cons 0 (cons 0 nil)))))))))))).
+Definition ACN_HEADER_SIZE : N := 12.
+Definition ACN_INITIAL_SIZE : N := 500.
